@@ -2,8 +2,9 @@
     form-factor assembly ([form_factor/integration.py], [form_factor/universal.py],
     [geometry._coincidence_check]).
 
-    Definitions only, polymorphic in the scalar type, no law is used.  The Nusselt
-    integrator is NOT modelled: its outputs enter [patch2patch_ff] as data. *)
+    Definitions only, polymorphic in the scalar type, no law is used.  The outputs of the Nusselt
+    integrator enter [patch2patch_ff] as data here; [Model/Nusselt.v] models the integrator and
+    [patch2patch_ff_full] there computes both branches. *)
 From Coq Require Import List Arith Bool.
 Import ListNotations.
 From SV Require Import Base.Ops Base.Arr Model.Vec3 Model.Exchange.
